@@ -446,8 +446,9 @@ def gen_c09(rng, fs, i, cfg):
                         # bases of different value dtypes (each level inherits its own base's dtype)
                         op["dtypes"]["count"] = rng.choice(["int64", "float64"])
                         if op["dtypes"]["count"] == "float64":
+                            # same values (the bases must stay consistent), another type
                             for ch in op["chunks"]:
-                                ch["count"] = [float(v) + rng.choice([0.0, 0.5, 0.25]) for v in ch["count"]]
+                                ch["count"] = [float(v) for v in ch["count"]]
                     op.update(file=f, path="/", mode="a")
                     ops.append(op)
                     ctx["bases"].append((f, "/"))
